@@ -24,8 +24,12 @@ GROUP = dict(
     extern_re=[r'ConcurrentBoundedQueue<.*>::', r'LogEntry::append_to_iovec', r'FileObject::'],
     roots=[A + '::write_use_plain_writev', A + '::discard', A + '::destination', {'lambda_in': A + '::keep_writing', 'ordinal': 1}, A + '::keep_writing'],
     reviewed_compiler_conditionals=[],
-    assumptions=[],
+    assumptions=['std::vector<iovec>, std::vector<void*>, std::vector<Destination> are executable ghost stubs (data pointer, length, one watched index); writev / close / deallocate / check_and_get_file_descriptor are ghost recorders with arbitrary results',
+                 'the queue (try_pop_n hands its callback one contiguous batch, in pop order, each item once) is C01; queue iterators are ghost positions',
+                 'LogEntry::append_to_iovec appends the scatter list of one entry (C20 reader jobs)', 'function-local static buffers are empty at entry (every exit leaves them empty: postcondition)'],
     jobs=[
+        dict(id='C20.appender.keep_writing', enforce='AsyncFileAppender_keep_writing', replace=['AsyncFileAppender_write_use_plain_writev', 'AsyncFileAppender_keep_writing_lambda_async_file_appender_keep_writing_1_op_call'],
+             loops=True, backend='cadical', defines=['VF_KEEP_WRITING 1', 'VF_POP_LAMBDA 1'], timeout=900, object_bits=10, covers=['g_rounds >= 2 && g_closes >= 1 && g_round_dsz >= 2']),
         dict(id='C20.appender.discard', enforce='AsyncFileAppender_discard', loops=True, backend='cadical', covers=['g_in > 2000 && g_f < g_in && g_f > 1000']),
         dict(id='C20.appender.destination', enforce='AsyncFileAppender_destination', backend='cadical', covers=['g_fidx == (size_t)-1 && g_dsz > 5', 'g_fidx != (size_t)-1 && g_fidx > 3']),
         dict(id='C20.appender.pop', enforce='AsyncFileAppender_keep_writing_lambda_async_file_appender_keep_writing_1_op_call', replace=['AsyncFileAppender_destination'], loops=True, backend='cadical', defines=['VF_POP_LAMBDA 1'], covers=['g_qn > 1000 && g_stop_at < g_qn && g_stop_at > 500', 'g_qn > 1000 && g_stop_at >= g_qn']),
